@@ -91,6 +91,7 @@ class Cfg:
         self.route_container_bias = False  # C20: route results / errors that are containers of user types
         self.avoid_word_namespace = False   # keep the word `namespace` out of identifiers and docs
         self.annot_bias = False       # C13: annotations in every namespace and on most members
+        self.redact_map_bias = False  # C13: maps / lists whose element type is a redacted alias, not nullable (seeded C13_9)
         self.risky_literals = 0       # how many near-miss literals (C10) a spec may contain
         self.doc_escapes = False      # doc words like C:\\users (\\u... in generated docstrings)
         self.omitted = True           # Omitted(...) annotations (change what is encoded)
@@ -787,7 +788,10 @@ class Builder:
                         t = g.choice([a_, ('nullable', a_), ('list', a_, None, None),
                                       ('list', ('nullable', a_), None, None),
                                       ('map', prim('String'), ('nullable', a_)),
-                                      ('nullable', ('list', a_, None, None))])
+                                      ('nullable', ('list', a_, None, None))] +
+                                     ([('map', prim('String'), a_), ('map', prim('String'), a_),
+                                       ('nullable', ('list', ('map', prim('String'), a_), None, None))]
+                                      if cfg.redact_map_bias else []))
                     elif cfg.annot_bias and g.p(40):
                         base = g.choice([prim('String'), prim('Int64'), prim('UInt64'), prim('Float64')])
                         t = g.choice([base, ('nullable', base), ('list', base, None, None),
